@@ -368,17 +368,19 @@ PHOSPHATE = {"P", "O1P", "O2P", "OP1", "OP2"}
 
 def _five_prime_phosphates(text):
     """(chain, res_seq, icode, name) of the phosphate atoms of a nucleotide
-    that opens its chain: the termini do not model a 5'-terminal phosphate and
-    the program removes it by design (stated in C03), so under the end-to-end
-    driver these atoms may be present or absent."""
+    that opens a chain (first residue of a chain id; for chains without an
+    identifier, first residue after a TER record): the termini do not model a
+    5'-terminal phosphate and the program removes it by design (stated in
+    C03), so under the end-to-end driver these atoms may be present or
+    absent."""
     atoms, _bad = pdb_ref.first_model_atoms(text)
     first = {}
     for a in atoms:
-        first.setdefault(a["chain"], (a["res_seq"], a["icode"],
-                                      a["res_name"]))
+        first.setdefault((a["chain"], a["segment"]),
+                         (a["res_seq"], a["icode"], a["res_name"]))
     out = set()
     for a in atoms:
-        f = first[a["chain"]]
+        f = first[(a["chain"], a["segment"])]
         if (a["res_seq"], a["icode"], a["res_name"]) == f and \
                 a["res_name"] in NUCLEIC_NAMES and a["name"] in PHOSPHATE:
             out.add((a["chain"], a["res_seq"], a["icode"], a["name"]))
@@ -450,13 +452,17 @@ def outcome(text, driver, drop_water, blank_relabel):
             return None  # nothing to ingest (all waters dropped): may refuse
         return ("exception:" + type(exc).__name__, str(exc)[:200])
     got = _model_set(atoms)
+    opt_present = 0
     if driver == "clean":
         optional = _five_prime_phosphates(text)
         if optional:
+            # chains without identifier are re-lettered by the program
+            anychain = {k[1:] for k in optional if k[0] == ""}
             exp = {k: v for k, v in exp.items() if k[:4] not in optional}
-            got = {k: v for k, v in got.items()
-                   if (k[0] or "", k[1], k[2], k[3]) not in optional
-                   and k[:4] not in optional}
+            kept = {k: v for k, v in got.items()
+                    if k[:4] not in optional and k[1:4] not in anychain}
+            opt_present = sum(got.values()) - sum(kept.values())
+            got = kept
     missing, extra = _compare(exp, got, blank_relabel)
     nexp, ngot = sum(exp.values()), sum(got.values())
     if missing and extra:
@@ -469,8 +475,9 @@ def outcome(text, driver, drop_water, blank_relabel):
     if extra:
         return ("extra-atoms", {"extra": sorted(map(str, extra))[:6],
                                 "n_expected": nexp, "n_got": ngot})
-    if n_lines is not None and n_lines != nexp:
-        return ("pqr-line-count", {"lines": n_lines, "n_expected": nexp})
+    if n_lines is not None and n_lines != nexp + opt_present:
+        return ("pqr-line-count", {"lines": n_lines,
+                                   "n_expected": nexp + opt_present})
     return None
 
 
